@@ -5,6 +5,8 @@
  * WHICH 0  ABT_thread_create with default attributes or an attribute carrying a migration callback (key table + record)
  * WHICH 1  ABTI_ythread_create_sched = what ABT_pool_add_sched runs for the caller's scheduler (automatic or not, symbolic)
  * WHICH 2  ABT_task_create
+ * WHICH 3  ABT_thread_create_many (2 ULTs, with a handle array): every entry of the array is afterwards either untouched, the NULL
+ *          handle, or the handle of a ULT that really was created and pushed -- never garbage
  * Memory: typed arena (one block per request kind), ledger, k-th request fails.
  * Failure: error code, nothing left allocated, NULL handle, no unit left in the user pool, nothing pushed, and objects passed
  * in by the caller (the scheduler!) neither freed nor modified.  Success: exactly one push, of the new unit. */
@@ -22,14 +24,14 @@ struct ystk { char stk[64]; ABTI_ythread y; };                                  
 struct tblk { ABTI_ktable_mem_header h; ABTI_ktable kt; char pad0[8]; ABTI_ktelem e0; char pad1[28]; uint32_t extflag; };   /* key table, 1 slot */
 struct eblk { ABTI_ktable_mem_header h; ABTI_ktelem e[3]; char pad1[12]; uint32_t extflag; };   /* further elements */
 struct mblk { ABTI_thread_mig_data m; char pad[40]; };
-static struct ystk A_YS; static ABTI_ythread A_DESC; static struct tblk A_TB; static struct eblk A_EB; static struct mblk A_MB;
-static int used_ys, used_desc, used_tb, used_eb, used_mb;
+static struct ystk A_YS, A_YS2; static ABTI_ythread A_DESC; static struct tblk A_TB; static struct eblk A_EB; static struct mblk A_MB;
+static int used_ys, used_ys2, used_desc, used_tb, used_eb, used_mb;
 int posix_memalign(void **p, size_t al, size_t sz)
 {
     /* the block for a request is chosen from the request size and the number of earlier requests of that size only -- both
      * are the same whether or not an earlier request failed -- so that cbmc sees concrete objects on every path */
     void *q = NULL; int *u = 0;
-    if (sz == sizeof(struct ystk)) { q = &A_YS; u = &used_ys; }
+    if (sz == sizeof(struct ystk)) { static int nys; int k = nys++; if (k == 0) { q = &A_YS; u = &used_ys; } else if (k == 1) { q = &A_YS2; u = &used_ys2; } }
     else if (sz == 64) { q = &A_MB; u = &used_mb; }
     else if (sz == 128) {
         static int n128; int k = n128++;
@@ -47,7 +49,7 @@ int posix_memalign(void **p, size_t al, size_t sz)
 void vr_free(void *p)
 {
     if (!p) return;
-    int *u = p == (void *)&A_YS ? &used_ys : p == (void *)&A_DESC ? &used_desc : p == (void *)&A_TB ? &used_tb : p == (void *)&A_EB ? &used_eb : p == (void *)&A_MB ? &used_mb : 0;
+    int *u = p == (void *)&A_YS ? &used_ys : p == (void *)&A_YS2 ? &used_ys2 : p == (void *)&A_DESC ? &used_desc : p == (void *)&A_TB ? &used_tb : p == (void *)&A_EB ? &used_eb : p == (void *)&A_MB ? &used_mb : 0;
     __CPROVER_assert(u != 0, "free() of a pointer that was allocated (block start)");
     if (u) { __CPROVER_assert(*u == 1, "memory block released exactly once"); *u = 2; vr_live--; }
 }
@@ -92,6 +94,14 @@ int main(void)
     SCHED.used = ABTI_SCHED_IN_POOL; SCHED.automatic = nondet_bool(); SCHED.p_ythread = NULL; SCHED.run = (ABT_sched_run_fn)body;
     ABT_bool automatic0 = SCHED.automatic;
     r = ABTI_ythread_create_sched(&G, NULL, &POOL, &SCHED);
+#elif WHICH == 3
+#define NULLH ABT_THREAD_NULL
+    ABT_pool pools[2] = { (ABT_pool)&POOL, (ABT_pool)&POOL }; void (*fns[2])(void *) = { body, body }; ABT_thread hs[2] = { (ABT_thread)&G, (ABT_thread)&G }; ABT_thread h = (ABT_thread)&G;
+    r = ABT_thread_create_many(2, pools, fns, NULL, ABT_THREAD_ATTR_NULL, hs);
+    for (int i = 0; i < 2; i++) VR_ASSERT(hs[i] == (ABT_thread)&G || hs[i] == ABT_THREAD_NULL || hs[i] == (ABT_thread)&A_YS.y || hs[i] == (ABT_thread)&A_YS2.y, "every entry of the handle array is untouched, NULL, or the handle of a ULT that was really created -- never garbage");
+    if (r != ABT_SUCCESS) VR_ASSERT(hs[1] != (ABT_thread)&A_YS2.y || used_ys2 == 1, "no handle to a released ULT");
+    if (r != ABT_SUCCESS && pushes == 1) { VR_WITNESS("the second creation failed after the first ULT had been created and pushed"); return 0; }   /* (the first ULT stays: documented TODO of the routine) */
+    if (r == ABT_SUCCESS) { VR_ASSERT(pushes == 2 && hs[0] == (ABT_thread)&A_YS.y && hs[1] == (ABT_thread)&A_YS2.y, "both ULTs created, pushed once each, handles returned in order"); VR_WITNESS("creation succeeded"); return 0; }
 #else
 #define NULLH ABT_TASK_NULL
     ABT_task h = (ABT_task)&G;
